@@ -3,7 +3,9 @@
 import json, os, time, random
 import fixture, vlib
 
-NAMES = ["app", "app2", "app-web", "ap", "lib", "lib2", "core", "core.x", "srv", "srv_b", "x", "xy"]
+# the fourth name is long and not ASCII (1 ASCII byte + 45 two-byte characters = 91 bytes: byte offsets such as 48, 64
+# or len-45 fall inside a character)
+NAMES = ["app", "app2", "app-web", "x" + "обработка" * 5, "ap", "lib", "lib2", "core", "core.x", "srv", "srv_b", "x", "xy"]
 
 
 def P(path):
@@ -43,6 +45,13 @@ def run_scenario(bins, sc, keep=False):
                 if kd != "undef":
                     fx.add_cmd(t["path"], c, _resolve_steps(fx, sc, steps), kind=kd, ext=ext,
                                cmd_dir=sc.get("cmd_dirs", {}).get(t["path"]))
+                    if kd == "def" and "%s|%s" % (c, t["path"]) in sc.get("symlinks", ()):
+                        # the command file is a symbolic link to an executable kept elsewhere
+                        link = fx.cmd_files[(t["path"], c)][0]
+                        real = os.path.join(fx.repo, "shared-tools", "%s-%s" % (t["path"].replace("/", "_"), c))
+                        os.makedirs(os.path.dirname(real), exist_ok=True)
+                        os.replace(link, real)
+                        os.symlink(real if (len(t["path"]) + len(c)) % 2 else os.path.relpath(real, os.path.dirname(link)), link)
         # scripts may reference other tasks' keys: resolve after all commands exist
         for t in sc["targets"]:
             for c in cmds:
@@ -112,7 +121,7 @@ def run_scenario(bins, sc, keep=False):
                     pass
             watcher = threading.Thread(target=watch, daemon=True)
             watcher.start()
-        res = fx.monorail(args, env=env, timeout=sc.get("timeout", 150))
+        res = fx.monorail(args, env=env, timeout=sc.get("timeout", 150), prlimit=sc.get("prlimit"))
         if watcher is not None:
             watcher.join(timeout=30)
         hooks = []
@@ -152,6 +161,8 @@ def run_scenario(bins, sc, keep=False):
                "events": events, "rc": res["rc"] if res["rc"] is not None else -9,
                "doc": doc_abs(res["out"], len(cmds)), "timeout": bool(res.get("timeout")),
                "label": sc.get("label", "")}
+        if sc.get("trust"):
+            rec["trust"] = True
         dbg = {"stderr": res["stderr"].decode("utf-8", "replace")[-600:], "wall": wall, "args": args,
                "raw_events": evs if keep else None, "hooks": hooks, "out": res["out"], "cmds": cmds}
         return rec, dbg
@@ -308,6 +319,7 @@ def random_scenario(seed, nt_range=(5, 12), fail_prob=0.35, slow_deps=True):
     fail_task = (rng.randint(1, ncmd), rng.randint(1, nt)) if failing else None
     fail_kind = rng.choice(["exit", "exit", "noexec", "undef_fou"]) if failing else None
     fou = fail_kind == "undef_fou" or rng.random() < 0.2
+    symlinks = []
     for ci, c in enumerate(cmds, 1):
         for t in range(1, nt + 1):
             key = "%s|%s" % (c, paths[t])
@@ -318,6 +330,8 @@ def random_scenario(seed, nt_range=(5, 12), fail_prob=0.35, slow_deps=True):
             if fail_task == (ci, t):
                 if fail_kind == "exit":
                     code = rng.choice(EXIT_CODES)
+                    if rng.random() < 0.3:
+                        code = -rng.choice([9, 15, 1, 2])      # the executable dies of a signal
                 elif fail_kind == "noexec":
                     kd = "noexec"
                 else:
@@ -328,10 +342,13 @@ def random_scenario(seed, nt_range=(5, 12), fail_prob=0.35, slow_deps=True):
             # dependencies (low depth) are slower than dependents
             ms = (maxd - d(t) + 1) * rng.randint(5, 40) if slow_deps else rng.randint(0, 60)
             steps = [{"op": "out", "text": "line 1 of %s\n" % key}, {"op": "sleep", "ms": ms},
-                     {"op": "out", "stream": "stderr", "text": "err of %s\n" % key}, {"op": "exit", "code": code}]
+                     {"op": "out", "stream": "stderr", "text": "err of %s\n" % key},
+                     {"op": "exit", "code": code} if code >= 0 else {"op": "signal", "sig": -code}]
             scripts[key] = steps
+            if kd == "def" and rng.random() < 0.12:
+                symlinks.append(key)
     sc = {"targets": ts, "commands": cmds, "kinds": kinds, "fou": fou, "scripts": scripts,
-          "label": "random-%d" % seed}
+          "label": "random-%d" % seed, "symlinks": symlinks}
     if rng.random() < 0.35:
         # some targets keep their commands in a directory of their own choosing (a `commands` block in the configuration)
         sc["cmd_dirs"] = {}
@@ -399,6 +416,29 @@ def barrier_scenario(size, position, seed=0, shared=False):
             if t["path"] in members:
                 t["commands"] = {"path": "tools/cmd"}
         sc["cmd_dirs"] = {m: "tools/cmd" for m in members}
+    return sc
+
+
+def wide_scenario(width, seed=0, barrier=False, fail_at=None, mode="all"):
+    """One group of `width` independent members between a base target and a top target. barrier: every member waits
+    until all the others have started (C16). fail_at: index of a member that exits non-zero. Judged with the grouping
+    printed by analyze as the plan's grouping (RunJudge Trusting)."""
+    rng = random.Random(seed)
+    members = ["w%03d" % i for i in range(width)]
+    ts = [{"path": "base"}] + [{"path": m, "uses": ["base/src.txt" if i % 2 else "base"]} for i, m in enumerate(members)] \
+        + [{"path": "top", "uses": list(members)}]       # every member is used by `top`: they all sit in one group
+    rng.shuffle(ts)
+    scripts = {}
+    for i, m in enumerate(members):
+        steps = []
+        if barrier:
+            steps.append({"op": "wait", "tasks": [["build", o, "started"] for o in members], "timeout_ms": 60000, "on_timeout": "barrier_timeout"})
+        steps.append({"op": "exit", "code": 7 if fail_at == i else 0})
+        scripts["build|" + m] = steps
+    sc = {"targets": ts, "commands": ["build"], "kinds": {}, "fou": False, "scripts": scripts, "mode": mode, "trust": True,
+          "label": "wide-%d%s%s" % (width, "-barrier" if barrier else "", "-fail" if fail_at is not None else ""), "timeout": 170}
+    if mode == "changed":
+        sc["edits"] = ["base/src.txt"]
     return sc
 
 
